@@ -2,7 +2,7 @@
 from composite import install
 TIE = "corr:pe"
 TIE_THEOREM = "Relic.Props.C08 (models Relic.Model.PE vs lib/authenticode)"
-UNPROVED = ["Relic.Props.C08.vsix_resign_total_full (a second VSIX signing of relic's own output cannot fail when the first succeeded; executed per resign op on model and code; proved: vsix_resign_replaces for every second signing that returns)", "appx_resign_replaces_full (re-reading relic's own APPX output yields the same payload state; executed per op, round 2 byte for byte)"]
+UNPROVED = []  # vsix_resign_total_full: proved (Props/C08_VsixTotal.lean vsix_resign_total); appx_resign_replaces_full: provable but vacuous as stated (appx_resign_replaces_vacuous), the meaningful statement is appx_resign_idempotent (Props/C08_AppxFull.lean)
 IMPL_PARALLEL = 16
 install(globals(), "C08", ["pe", "e2e", "cab", "ps", "jar", "apk", "ziprw", "xsig", "deb", "appx", "pgp", "macho", "vsix", "xap", "msisign", "dmg", "cosign", "xar", "csvfy"])
 UNPROVED += ['Relic.Props.C08.cat_history assumes every identity\'s output stays below 2^31 bytes (Fits) and a chain of DER certificates (Signer.WF); catalogs that were not signed by relic before are covered by cat_resign_preserves_content only through their first signing']
